@@ -92,7 +92,8 @@ def _unsync():
         sym_time = name.endswith("_sym")
         props = {"op_get": GET, "op_contains": CON, "op_iter": ITER, "op_invalidate": INV, "op_invalidate_all": INV,
                  "op_invalidate_if": INV, "op_evict_lru": {"C04", "C12", "C10"}, "op_evict_expired": {"C10", "C03", "C11"},
-                 "op_get_overcap": GET | {"C04"}, "op_insert_overcap": INSN}.get(op)
+                 "op_get_overcap": GET | {"C04"}, "op_insert_overcap": INSN,
+                 "op_insert_sketch_off": {"C13", "C03", "C12", "C10"}}.get(op)
         if op == "op_insert":
             props = INSU if "_upd" in name else INSN
         props = set(props) | {"C08"}
@@ -105,7 +106,7 @@ def _unsync():
         prim = {"op_get": {"C01", "C12", "C14"}, "op_contains": {"C15"}, "op_iter": {"C16", "C15"},
                 "op_invalidate": {"C07"}, "op_invalidate_all": {"C07", "C10"}, "op_invalidate_if": {"C07", "C10"},
                 "op_evict_lru": {"C04", "C12"}, "op_evict_expired": {"C10", "C03", "C11"},
-                "op_get_overcap": {"C04", "C12"}, "op_insert_overcap": {"C04", "C03"}}.get(op, set())
+                "op_get_overcap": {"C04", "C12"}, "op_insert_overcap": {"C04", "C03"}, "op_insert_sketch_off": {"C13"}}.get(op, set())
         if op == "op_insert":
             prim = {"C01", "C10"} if "_upd" in name else {"C03", "C04", "C13", "C12"}
         prim = set(prim)
